@@ -96,7 +96,7 @@ class Harness:
                     if term[0] == "Y":
                         now = self.now.nanoseconds
                         tag = H.next_tag()
-                        H.trace.append(f"y {tag} {pid} {now + delay_ns(term[1])} {1 if event.daemon else 0} {now}")
+                        H.trace.append(f"y {tag} {pid} {now + delay_ns(term[1])} {1 if event.daemon else 0} {now} {self.idx}")
                         sent = yield (term[1], pending) if pending else term[1]
                         H.emit_log(f"R {self.now.nanoseconds} {pid} {fmt_val(sent)} {tag}")
                     elif term[0] == "W":
